@@ -374,7 +374,7 @@ func sameValue(in *absint.Interp, a, b absint.Value, cond absint.Node) (bool, st
 	for i := range xb {
 		diff := in.D.M.And(cond, in.D.M.Xor(xb[i], yb[i]))
 		if diff != absint.False {
-			return false, fmt.Sprintf("bit %d differs: got %s, want %s; e.g. %s", i, in.D.Describe(in.D.M.Simplify(xb[i], cond)), in.D.Describe(in.D.M.Simplify(yb[i], cond)), in.D.Witness(diff))
+			return false, fmt.Sprintf("bit %d differs: got %s, want %s; e.g. %s%s", i, in.D.Describe(in.D.M.Simplify(xb[i], cond)), in.D.Describe(in.D.M.Simplify(yb[i], cond)), in.D.Witness(diff), explainOpaque(in, xb, yb, cond))
 		}
 	}
 	return true, "bitwise identical under the accept condition"
@@ -468,4 +468,43 @@ func sameValueRaw(in *absint.Interp, a, b absint.Value, cond absint.Node) (bool,
 		}
 	}
 	return true, ""
+}
+
+// explainOpaque: when both sides are built from one uninterpreted term of the same kind each, say which argument
+// byte of the two terms differs (makes crypto mismatches diagnosable: "block byte 12: got 0, want fCnt[16..23]").
+func explainOpaque(in *absint.Interp, got, want []absint.Node, cond absint.Node) string {
+	if in.OpaqueDesc == nil {
+		return ""
+	}
+	gi, wi := in.OpaqueIDsIn(got), in.OpaqueIDsIn(want)
+	for g := range gi {
+		if wi[g] {
+			continue
+		}
+		for w := range wi {
+			if gi[w] {
+				continue
+			}
+			gt, wt := in.OpaqueDesc[g], in.OpaqueDesc[w]
+			if gt.Kind != wt.Kind || len(gt.Inputs) != len(wt.Inputs) {
+				continue
+			}
+			names := []string{"key", "block/message"}
+			for k := range gt.Inputs {
+				nm := fmt.Sprint("argument ", k)
+				if k < len(names) {
+					nm = names[k]
+				}
+				if len(gt.Inputs[k]) != len(wt.Inputs[k]) {
+					return fmt.Sprintf(" [%s terms differ: %s has %d bytes, expected %d]", gt.Kind, nm, len(gt.Inputs[k]), len(wt.Inputs[k]))
+				}
+				for j := range gt.Inputs[k] {
+					if ok, _ := sameValueRaw(in, gt.Inputs[k][j], wt.Inputs[k][j], cond); !ok {
+						return fmt.Sprintf(" [%s terms differ at %s byte %d: got %s, expected %s]", gt.Kind, nm, j, in.Show(gt.Inputs[k][j]), in.Show(wt.Inputs[k][j]))
+					}
+				}
+			}
+		}
+	}
+	return ""
 }
